@@ -82,6 +82,18 @@ func (e *encFunc) famOf(v ssa.Value) (*family, LF, bool) {
 		seen[v] = true
 		switch x := v.(type) {
 		case *ssa.Slice:
+			// append(acc, block...)[len(acc):] is the block just appended (the output grown by a zeroed
+			// record that is then filled in place): the same memory as the record's own buffer
+			if x.Low != nil && x.High == nil {
+				if ap := isAppendCall(x.X); ap != nil && len(ap.Call.Args) == 2 {
+					if e.f.LFOf(x.Low).key() == e.f.SliceLen(ap.Call.Args[0]).key() {
+						if _, isMk := ap.Call.Args[1].(*ssa.MakeSlice); isMk {
+							v = ap.Call.Args[1]
+							continue
+						}
+					}
+				}
+			}
 			if x.Low != nil {
 				off = off.add(e.f.LFOf(x.Low), 1)
 			}
@@ -675,7 +687,17 @@ func (e *encFunc) splitIterationRecords(loops []*loopInfo) {
 			}
 		}
 		if !follows {
-			continue
+			// the explicit octets are the whole record (a list element appended as append(out, b0, b1, b2, b3),
+			// which is what AppendUint32 is): the only append of the iteration, at least two octets
+			only := n >= 2
+			for i, sg := range fm.Segs {
+				if i != hi && sg.InLoop && loopOf(sg.Ins.Block()) == li {
+					only = false
+				}
+			}
+			if !only {
+				continue
+			}
 		}
 		root := valueOf(H.Ins)
 		V := &family{Root: root, Name: "iter:" + root.Name(), InitLen: konst(n), X: e.x, F: e.f, Fn: e.fn}
